@@ -588,6 +588,99 @@ class Replayer:
     # an old value that was a node: the spec id may have been freed/forgotten; compare identity when bound
     return self.match_value(specv, pyv)
 
+  # ---- building a spec state directly (for single-transition tests) -------------
+  def build_from_state(self, st):
+    """Constructs real objects for every live node of spec state `st` and enters its scopes."""
+    kinds = st['kind']
+    n_nodes = len(kinds)
+
+    def leaf(v):
+      if v == PNONE:
+        return None
+      if v == MISSING:
+        return pg.MISSING_VALUE
+      if v == PH:
+        return pg.oneof([1, 2])
+      return v
+
+    def build(n):
+      k = kinds[n - 1]
+      if k == 'list':
+        items = [build(v) if 1 <= v <= n_nodes else leaf(v) for v in st['litems'][n - 1]]
+        kw = {}
+        if st['subs'][n - 1]:
+          kw['onchange_callback'] = _make_cb(None)
+        o = pg.List(items, accessor_writable=st['accw'][n - 1], **kw)
+      elif k == 'dict':
+        items = {DKEYS[kk]: (build(v) if 1 <= v <= n_nodes else leaf(v)) for kk, v in st['ditems'][n - 1]}
+        kw = {}
+        if st['subs'][n - 1]:
+          kw['onchange_callback'] = _make_cb(None)
+        o = pg.Dict(items, accessor_writable=st['accw'][n - 1], **kw)
+      else:
+        cls, km = (A, OKEYS) if k == 'obj' else (B, OKEYS_B)
+        kwargs = {km[kk]: (build(v) if 1 <= v <= n_nodes else leaf(v)) for kk, v in st['ditems'][n - 1]}
+        kwargs = {a: b for a, b in kwargs.items() if not (b is pg.MISSING_VALUE or b == pg.MISSING_VALUE)}
+        o = cls.partial(**kwargs) if k == 'objb' else cls(**kwargs)
+      self.obj[n] = o
+      return o
+
+    roots = [n for n in range(1, n_nodes + 1) if kinds[n - 1] != 'free' and st['parent'][n - 1] == 0]
+    for r in roots:
+      build(r)
+    # flags: seal() is deep, so apply top-down; children then override
+    def seal_rec(n):
+      self.obj[n].seal(st['sealed'][n - 1])
+      vals = st['litems'][n - 1] if kinds[n - 1] == 'list' else [kv[1] for kv in st['ditems'][n - 1]]
+      for v in vals:
+        if 1 <= v <= n_nodes:
+          seal_rec(v)
+    for r in roots:
+      seal_rec(r)
+    for a in st['sstk']:
+      self.do_EnterSealed(a)
+    for a in st['astk']:
+      self.do_EnterAccW(a)
+    for b_ in st['nstk']:
+      self.do_EnterNotify(b_)
+
+  def replay_transition(self, src, dst, budget_s: float = 20.0) -> Optional[dict]:
+    """Builds `src`, checks the construction, executes dst['act'] and compares with `dst`."""
+    import signal  # pylint: disable=import-outside-toplevel
+
+    def on_alarm(signum, frame):
+      raise Divergence('hang', f'the call did not return within {budget_s}s')
+
+    old = signal.signal(signal.SIGALRM, on_alarm)
+    signal.setitimer(signal.ITIMER_REAL, budget_s)
+    try:
+      try:
+        self.build_from_state(src)
+        saved = self.clauses
+        self.clauses = self.clauses - {'events', 'facts', 'ret'}
+        src0 = dict(src)
+        src0['out'] = {'k': 'ok', 'ret': 0}
+        self.compare(src0, 'ok', None)
+        self.clauses = saved
+      except Divergence as d:
+        return {'step': 0, 'act': ['Build'], 'clause': 'build:' + d.clause, 'detail': d.detail}
+      act = dst['act']
+      try:
+        out_kind, ret = self.execute(act)
+        if isinstance(ret, Divergence):
+          raise ret
+        self.bind_new(dst, set(self.obj), ret)
+        self.compare(dst, out_kind, ret)
+      except Divergence as d:
+        return {'step': 1, 'act': act, 'clause': d.clause, 'detail': d.detail,
+                'spec_out': getattr(d, 'spec_out', dst['out']['k']), 'impl_out': getattr(d, 'impl_out', None)}
+      self.hit(act[0] + ':' + dst['out']['k'])
+      return None
+    finally:
+      signal.setitimer(signal.ITIMER_REAL, 0)
+      signal.signal(signal.SIGALRM, old)
+      self.close()
+
   # ---- one behaviour -----------------------------------------------------------
   def replay(self, steps, budget_s: float = 30.0) -> Optional[dict]:
     """Returns None when the behaviour conforms, else a divergence record.
